@@ -193,6 +193,10 @@ func (C12) Generate(c *Ctx, r *Rand, index int) *Scenario {
 		return sc // fault-free configuration
 	}
 	// place faults inside in-flight work: learn the step sequence first
+	if sc.TmpOther && rf.Chance(1, 3) {
+		// close the sibling route so that the last resort (overwrite in place) runs
+		sc.Plan.Steps = append(sc.Plan.Steps, StepFault{Site: Pick(rf, []string{"copy.sibling.create", "copy.sibling.rename"}), Occ: 1, Action: "error", Errno: Pick(rf, []string{"EACCES", "EROFS", "EBUSY"})})
+	}
 	pre := c.ExecOpts(sc, RunOpts{})
 	c.Count("prerun")
 	type so struct {
@@ -278,6 +282,7 @@ func (C12) Generate(c *Ctx, r *Rand, index int) *Scenario {
 var errorable = map[string]bool{
 	"tmp.create": true, "inplace.statTarget": true, "inplace.chmod": true, "copy.openSrc": true, "copy.createDst": true,
 	"copy.copy": true, "copy.sync": true, "fm.open": true, "fm.write": true, "input.open": true, "load.open": true,
+	"copy.sibling.create": true, "copy.sibling.copy": true, "copy.sibling.chmod": true, "copy.sibling.sync": true, "copy.sibling.rename": true,
 }
 
 func genChunks(r *Rand) []int {
@@ -407,8 +412,11 @@ func (C12) Judge(c *Ctx, sc *Scenario) []Violation {
 		if e.Site == "inplace.rename" && path == "none" {
 			path = "rename"
 		}
-		if strings.HasPrefix(e.Site, "copy.") {
-			path = "fallback"
+		if strings.HasPrefix(e.Site, "copy.") && path != "inplace" {
+			path = "sibling" // the fallback: copy into a temp next to the target, rename
+		}
+		if e.Site == "copy.createDst" {
+			path = "inplace" // the last resort: the target is overwritten in place
 		}
 	}
 	faults := faultTags(out)
@@ -425,16 +433,24 @@ func (C12) Judge(c *Ctx, sc *Scenario) []Violation {
 		// untraced run (write faults by strace): the path is known from the set-up
 		path = "rename"
 		if sc.TmpOther {
-			path = "fallback"
+			path = "sibling"
+			for _, f := range sc.Plan.Steps {
+				if f.Action == "error" && (f.Site == "copy.sibling.create" || f.Site == "copy.sibling.rename") {
+					path = "inplace"
+				}
+			}
 		}
 	}
-	nontrivial := faults != "none" || path == "fallback"
+	nontrivial := faults != "none" || path == "sibling" || path == "inplace"
 	if !c.Quiet {
 		c.Stats.Distinct(out.TraceSig(), nontrivial)
 		if sc.Strace != "" && !strings.HasPrefix(sc.Strace, "renameat") {
 			c.Count("fired.strace." + strings.SplitN(sc.Strace, ":", 2)[0])
 		}
-		if path == "fallback" {
+		if path == "inplace" {
+			c.Count("probe.target_overwritten_in_place")
+		}
+		if path == "sibling" || path == "inplace" {
 			if strings.HasPrefix(sc.Strace, "renameat") {
 				c.Count("fired.strace." + sc.Strace)
 				c.Count("probe.rename_failed_by_strace_took_fallback")
@@ -464,7 +480,10 @@ func (C12) Judge(c *Ctx, sc *Scenario) []Violation {
 	var vs []Violation
 	add := func(oracle, detail, msg string) {
 		sig := fmt.Sprintf("%s %s path=%s fault=%s", oracle, detail, path, faults)
-		vs = append(vs, Violation{Prop: "C12", Oracle: oracle, Sig: sig, Class: oracle + " " + detail + " path=" + path, Msg: msg + " | argv=" + strings.Join(sc.Argv, " ")})
+		vs = append(vs, Violation{Prop: "C12", Oracle: oracle, Sig: sig, Class: oracle + " " + detail + " path=" + path, Msg: msg + " | argv=" + strings.Join(sc.Argv, " "),
+			// strace counts `when=N` per thread and the Go runtime decides which thread issues a system call:
+			// the observed outcome stands, but which call is hit may differ in a replay
+			Probabilistic: strings.Contains(sc.Strace, "when=")})
 	}
 	if crashed, how := out.Crashed(); crashed {
 		add("O12.0", "crash="+how, "yq -i crashed: "+firstLines(out.Stderr, 6))
